@@ -1,0 +1,61 @@
+//go:build verif
+
+package lite
+
+import (
+	"time"
+
+	"go.minekube.com/gate/pkg/edition/java/proto/packet"
+	"go.minekube.com/gate/pkg/gate/proto"
+	"golang.org/x/sync/singleflight"
+)
+
+// Verification hooks for the Lite ping status cache (property C32).
+// Thin wrappers around the unexported pingStatusCache; they change no behaviour.
+
+// VerifPingCache wraps a private pingStatusCache instance.
+type VerifPingCache struct{ c *pingStatusCache }
+
+// VerifNewPingCache builds a pingStatusCache exactly like the package-level pingCache is
+// built (newPingStatusCache with a fresh singleflight.Group), with an injected clock.
+func VerifNewPingCache(now func() time.Time) *VerifPingCache {
+	return &VerifPingCache{c: newPingStatusCache(now, new(singleflight.Group))}
+}
+
+func verifKey(backendAddr string, protocol int, routeGeneration uint64) pingKey {
+	return pingKey{backendAddr: backendAddr, protocol: proto.Protocol(protocol), routeGeneration: routeGeneration}
+}
+
+// Load calls pingStatusCache.load with a loader returning (status JSON, error).
+func (v *VerifPingCache) Load(backendAddr string, protocol int, routeGeneration uint64, ttl time.Duration,
+	load func() (status string, err error)) (status string, err error) {
+	res := v.c.load(verifKey(backendAddr, protocol, routeGeneration), ttl, func() *pingResult {
+		s, err := load()
+		if err != nil {
+			return &pingResult{err: err}
+		}
+		return &pingResult{res: &packet.StatusResponse{Status: s}}
+	})
+	if res == nil {
+		return "", nil
+	}
+	if res.res != nil {
+		status = res.res.Status
+	}
+	return status, res.err
+}
+
+// Get calls pingStatusCache.get (the loader-less fast path of resolveStatusResponse).
+func (v *VerifPingCache) Get(backendAddr string, protocol int, routeGeneration uint64) (status string, err error, ok bool) {
+	res := v.c.get(verifKey(backendAddr, protocol, routeGeneration))
+	if res == nil {
+		return "", nil, false
+	}
+	if res.res != nil {
+		status = res.res.Status
+	}
+	return status, res.err, true
+}
+
+// Reset calls pingStatusCache.reset (what ResetPingCache does on the package-level cache).
+func (v *VerifPingCache) Reset() { v.c.reset() }
